@@ -15,6 +15,7 @@ Decides:
 Does not decide: chrono's parsing of each absolute form, local-zone lookup, the instant of 'now'.
 """
 import decide
+import flow
 import rx
 from mir import CheckerError, op_local
 
@@ -214,6 +215,70 @@ def run(prog, rep, tier):
     if not gets:
         rep.violation(R142, b.path + "|named-zone-map", "process_dt: the numeric zone is not taken from MAP_TZZ_TO_TZz")
 
+    # ------------------------------------------------------------ R14.6
+    # Path-sensitive: a value that lost its trailing zone name (String::pop & friends, or a
+    # trimmed slice of it) may reach the parser only together with a pattern in which %Z was
+    # rewritten to %z on the same path.  Otherwise the name-less value is offered to rows that
+    # carry no zone at all, and an ambiguous name (empty map value) is accepted as zone-less.
+    R146 = rep.rule("R14.6", "a value stripped of its zone name is parsed only with the %Z->%z rewritten pattern (path-sensitive)")
+    SHORTEN = ("String::pop", "String::truncate", "String::remove", "String::drain", "String::split_off", "String::clear", "String::retain", "String::replace_range")
+    SLICE = ("::trim_end_matches", "::trim_end", "::trim_matches", "::strip_suffix", "::rsplit_once", "::split_at", "::rsplitn", "::trim_right_matches", "::split_terminator")
+    COPY = ("Clone>::clone", "::clone", "From<&str>>::from", "From<std::string::String>>::from", "::to_string", "::to_owned", "String::from", "Into<", "::into")
+
+    def blk(bb, st):
+        stripped, zpat = set(st[0]), set(st[1])
+        for s_ in b.stmts(bb):
+            if s_[0] == "=" and len(s_[1]) == 1:
+                d = s_[1][0]
+                rv = s_[2]
+                src = None
+                if rv[0] == "use" and rv[1][0] != "k" and len(rv[1][1]) == 1:
+                    src = rv[1][1][0]
+                if src is not None:
+                    (stripped.add if src in stripped else stripped.discard)(d)
+                    (zpat.add if src in zpat else zpat.discard)(d)
+                elif rv[0] not in ("ref", "rawptr"):
+                    stripped.discard(d)
+                    zpat.discard(d)
+        t = b.term(bb)
+        if t[0] == "call":
+            c = [x for x in b.calls if x.bb == bb][0]
+            name = c.d or c.o
+            if any(name.endswith(x) for x in SHORTEN) and c.args:
+                tg = flow.named_target(b, c.args[0])
+                if tg is not None:
+                    stripped.add(tg)
+            if len(c.dest) == 1:
+                d = c.dest[0]
+                if any(x in name for x in SLICE) and c.args:
+                    stripped.add(d)
+                    zpat.discard(d)
+                elif (name.endswith("::replacen") or name.endswith("::replace")) and "'%Z'" in const_str_args(b, c) and "'%z'" in const_str_args(b, c):
+                    zpat.add(d)
+                    stripped.discard(d)
+                elif any(x in name for x in COPY) and c.args and c.args[0][0] != "k":
+                    src = flow.named_target(b, c.args[0])
+                    (stripped.add if src in stripped else stripped.discard)(d)
+                    (zpat.add if src in zpat else zpat.discard)(d)
+                elif not any(x in name for x in flow.REF_THROUGH):
+                    stripped.discard(d)
+                    zpat.discard(d)
+        return (frozenset(stripped), frozenset(zpat))
+    sts = flow.disjunctive(b, (frozenset(), frozenset()), blk)
+    vloc = flow.named_target(b, pc.args[0])
+    ploc = flow.named_target(b, pc.args[1])
+    at_parse = sts.get(pc.bb, frozenset())
+    kinds = sorted({(vloc in s_[0], ploc in s_[1]) for s_ in at_parse})
+    rep.examined(R146, b.path + "|stripped-value", nontrivial=any(k[0] for k in kinds),
+                 sample={"value_variable": b.local_name(vloc) or vloc, "pattern_variable": b.local_name(ploc) or ploc,
+                         "(value_stripped, pattern_rewritten) combinations reaching the parser": kinds, "abstract_states": len(at_parse)})
+    if not any(k[0] for k in kinds):
+        raise CheckerError("R14.6: no path on which process_dt strips the zone name from the value reaches the parser (idiom not recognised)")
+    if (True, False) in kinds:
+        zless = [r[0] for r in rows if not r[2] and not r[3]]
+        rep.violation(R146, b.path + "|stripped-value", "process_dt: on some path the value with its trailing zone name removed reaches datetime_parse_from_str with a pattern that was not rewritten from %%Z to %%z; "
+                      "zone-less rows (%d of them, e.g. %r) then accept e.g. '20000102T030406SST' although SST is ambiguous and must be rejected" % (len(zless), zless[0] if zless else None))
+
     # ------------------------------------------------------------ R14.3
     cb = prog.body("s4::cli_process_args")
     pde = [c for c in cb.live_calls() if c.d == "s4::process_dt_exit"]
@@ -405,6 +470,13 @@ def run(prog, rep, tier):
     rep.examined(R144, "MAP_TZZ_TO_TZz|values", sample={"entries": len(ents), "ambiguous(empty)": len([e for e in ents if e[1] == ""]), "malformed": bad[:3]})
     if bad:
         rep.violation(R144, "MAP_TZZ_TO_TZz|values", "MAP_TZZ_TO_TZz: values that are neither empty (ambiguous) nor +HH:MM: %s" % bad[:5])
+
+    # ------------------------------------------------------------ R14.7 (shared instant-preservation lint)
+    import instant
+    R147i = rep.rule("R14.7", "filter-argument resolution never reads a wall-clock view back as UTC")
+    n_sites = instant.check(prog, rep, R147i, lambda p: (p.startswith('s4::') or 'data::datetime::datetime_parse_from_str' in p) and '_tests' not in p, "the resolved filter instant is off by the --tz-offset")
+    if n_sites < 4:
+        raise CheckerError("R14.7: only %d chrono conversion sites found in scope (expected at least 4)" % n_sites)
 
     return rep.finish(
         "Static necessary-condition check of the CLI datetime-filter path: the relative-offset grammar is anchored (regular-language analysis of "
